@@ -305,7 +305,7 @@ HARNESSES = [
              "positions; each entry point called twice; fingerprint of all points, links, objects and attributes",
       outside="save_musicxml / save_match (lxml, files), estimate_spelling/voices/key (numeric kernels), note arrays of scores"),
     H("pianoroll_entry", make_part_entry, lambda tier: [{"entry": "pianoroll"}],
-      models=[m.replace("partitura.utils.music,", "partitura.utils.music!,") for m in MODELS], budget={"quick": 250, "thorough": 1200},
+      models=[m.replace("partitura.utils.music,", "partitura.utils.music!!,") for m in MODELS], budget={"quick": 250, "thorough": 1200},
       lazy_format=True, functions=["Part.note_array", "music.compute_pianoroll", "music._make_pianoroll"],
       bounds="same part; compute_pianoroll on its note array, called twice (the roll's index buffers are object arrays: "
              "symnp's zeros_object mode for utils.music)"),
